@@ -20,8 +20,12 @@ RULES = {
     "outputs lose their producer link",
     "R4": "producer ⟂ input/initializer: a non-None producer is only stored after testing the value's "
     "input/initializer flags, and the input/initializer flag is only set after testing producer()",
+    "R5": "integrity of the node container behind Graph._nodes (shared with C11-R3): length and id→box map change "
+    "together, every insertion goes through the one splicing primitive, a present value is unlinked before it is "
+    "re-linked, the anchor's successor is read after that unlinking, and exactly four link writes splice the new box - "
+    "otherwise len(graph), iteration and node.graph disagree about which nodes the graph holds",
 }
-FLOORS = {"R1": 30, "R1b": 4, "R2": 70, "R3": 10, "R4": 4}
+FLOORS = {"R1": 30, "R1b": 4, "R2": 70, "R3": 10, "R4": 4, "R5": 8}
 EXPLANATION = (
     "Enumerates every method of collections.UserList/UserDict (parsed from the interpreter's own "
     "source) that writes self.data and checks how GraphInputs/GraphOutputs/GraphInitializers resolve "
@@ -783,6 +787,9 @@ def _loop_precedes(ifnode, stmt) -> bool:
 
 
 def run(ctx):
+    from . import c11
+
+    c11.rule_r3(ctx, rule="R5")
     rule_r1(ctx)
     rule_r1b(ctx)
     rule_r2(ctx)
